@@ -294,7 +294,7 @@ SCOPES = {
     "C04": ([S + "types::attr_split", S + "types::fstr", S + "types::strp", S + "types::split_unit", S + "types::extract_urlref", S + "element::SvgElement::new", S + "element::SvgElement::split_compound_attr", S + "element::SvgElement::transmute", S + "<transform_attr::", S + "events::<impl element::SvgElement>::into_bytesstart"], "an attribute value"),
     "C05": ([S + "element::SvgElement::element_events", S + "events::<impl std::convert::From<events::OutputEvent>"], "generated comment / text content"),
     "C08": ([S + "element::SvgElement::bbox_raw", S + "<transform_attr::"], "a geometry attribute or transform"),
-    "C09": ([S + "element::SvgElement::eval_rel_position", S + "element::expand_relspec", S + "element::expand_single_relspec", S + "<position::LocSpec", S + "<position::Length", S + "position::parse_el_loc"], "a relative-position specification"),
+    "C09": ([S + "element::SvgElement::eval_rel_position", S + "element::SvgElement::split_compound_attr", S + "element::expand_relspec", S + "element::expand_single_relspec", S + "<position::LocSpec", S + "<position::Length", S + "position::parse_el_loc"], "a relative-position specification"),
     "C10": ([S + "context::ElementMatch::matches", S + "types::extract_elref"], "an element reference"),
     "C11": ([S + "element::SvgElement::eval_size_attr", S + "element::SvgElement::pos_attr_helper", S + "position::parse_el_scalar", S + "<position::Length", S + "types::strp", S + "types::fstr"], "a size / position shorthand"),
     "C12": ([S + "<bearing::", S + "bearing::", S + "<path::", S + "path::", S + "element::SvgElement::bbox_raw"], "path / element geometry text"),
